@@ -321,8 +321,9 @@ def worker(rec, shard, nshards, nrows, thorough, seed):
                                                     or (len(rk) == 2 and rk[0][0].startswith("delay")))]
     cases = []
     for n in range(1, nrows + 1):
-        # the longest histories use the reduced row menu in both tiers (the full menu to the 4th power is ~1e7 files)
-        menu_n = range(len(rowkinds)) if n < nrows else small
+        # histories of three and more rows use the reduced row menu (the full menu to the 3rd power times the onset grids is
+        # ~1e7 files); thorough adds the fourth row and the larger onset grid
+        menu_n = range(len(rowkinds)) if n <= 2 else small
         for combo in itertools.product(menu_n, repeat=n):
             cases.append(combo)
     # the histories of up to two rows also under a namespace prefix (every tag written ts:...)
